@@ -118,6 +118,43 @@ def _back(env, e2, skip=()):
             env[kk] = e2[kk]
 
 
+_ITER_METHODS = {"iter", "iter_mut", "into_iter", "chars", "char_indices", "bytes", "split", "splitn", "rsplit", "rsplitn", "split_whitespace", "split_terminator", "lines", "peekable", "enumerate",
+                 "map", "filter", "filter_map", "rev", "skip", "take", "zip", "chain", "by_ref", "drain", "keys", "values", "values_mut", "into_keys", "into_values", "windows", "chunks",
+                 "skip_while", "take_while", "map_while", "flat_map", "flatten", "step_by", "inspect", "scan", "fuse", "cycle", "matches", "match_indices", "split_inclusive", "into_iter_sorted"}
+_COLL_METHODS = {"collect", "to_vec", "to_owned", "split_off", "into_vec", "into_boxed_slice", "into_sorted_vec"}
+
+
+def _var_kind(ini):
+    """"iter" / "coll" / None: whether the initialiser of a `let` is an iterator (consumed by `for x in &mut it`) or a collection (walked by it)"""
+    n = ini
+    while is_node(n) and (n["k"] in ("Paren", "Try") or (n["k"] == "MethodCall" and n["method"] in ("unwrap", "expect", "unwrap_or_default"))):
+        n = n["expr"] if n["k"] in ("Paren", "Try") else n["receiver"]
+    if not is_node(n):
+        return None
+    if n["k"] == "MethodCall":
+        if n["method"] in _COLL_METHODS:
+            return "coll"
+        if n["method"] in _ITER_METHODS:
+            return "iter"
+        return None
+    if n["k"] == "Macro" and n.get("path") == "vec":
+        return "coll"
+    if n["k"] in ("Array", "Repeat"):
+        return "coll"
+    if n["k"] == "Call" and is_node(n.get("func")) and n["func"].get("k") == "Path" and (n["func"]["path"] in COLLECTION_CTORS or re.search(r"(^|::)(Vec|VecDeque|BTreeMap|BTreeSet|HashMap|HashSet)::(new|with_capacity|from|from_iter|default)$", n["func"]["path"])):
+        return "coll"
+    return None
+
+
+def _param_kind(ty):
+    t = str(ty or "")
+    if re.search(r"\b(Iterator|Peekable|Chars|CharIndices|Bytes|Split\w*|IntoIter|Iter|IterMut|Enumerate|Lines)\b", t):
+        return "iter"
+    if re.search(r"\b(Vec|VecDeque|BTreeMap|BTreeSet|HashMap|HashSet|IndexMap)\b|\[", t):
+        return "coll"
+    return None
+
+
 class _Rev:
     """sort key wrapped in std::cmp::Reverse"""
     def __init__(self, k):
@@ -683,6 +720,14 @@ class AEval(dtable.Eval):
                 consume = src["receiver"]["path"]
             if consume is not None and not (consume in env and env[consume][0] == "list"):
                 consume = None
+            if consume is not None and src["k"] == "Ref" and not isinstance(env[consume], MutRef):
+                # `for x in &mut name`: an iterator is consumed, a collection is walked by mutable reference - the model holds a list for
+                # both; how the variable was made tells which
+                kd_ = env.get("#kind:" + consume)
+                if kd_ == ("str", "coll"):
+                    consume = None
+                elif kd_ != ("str", "iter"):
+                    raise Unknown("for over `&mut %s`: an iterator (consumed) or a collection (walked in place)?" % consume)
             it = self.ex(e["iter"], env)
             if it == DEFAULT:
                 it = L()
@@ -702,6 +747,13 @@ class AEval(dtable.Eval):
                     pl = self._mut_place(sn["receiver"], env)
                     if pl is not None:
                         store = (pl, "values" if sn["method"] == "values_mut" else "elems")
+                elif is_node(sn) and sn["k"] == "MethodCall" and sn["method"] == "enumerate" and not sn["args"] and is_node(sn["receiver"]) and sn["receiver"]["k"] == "MethodCall" \
+                        and sn["receiver"]["method"] == "iter_mut" and not sn["receiver"]["args"] and "enumerate" not in self.builtins:
+                    pl = self._mut_place(sn["receiver"]["receiver"], env)
+                    if pl is not None:
+                        store = (pl, "enum-elems")
+                elif is_node(sn) and any(is_node(y) and y.get("k") == "MethodCall" and y.get("method") in ("iter_mut", "values_mut") for y in walk(sn)) and "iter_mut" not in self.builtins:
+                    raise Unknown("for over an adapted mutable iterator")
                 elif is_node(sn) and sn["k"] == "Ref" and sn.get("mut"):
                     pl = self._mut_place(sn["expr"], env)
                     if pl is not None and self.ex(pl, env)[0] == "list" and not isinstance(self.ex(pl, env), MutRef):
@@ -744,6 +796,8 @@ class AEval(dtable.Eval):
                 if cur[0] == "list" and len(cur[1]) == len(new_elems):
                     if store[1] == "values":
                         new_elems = [T(o[1][0], nv) if o[0] == "tuple" and len(o[1]) == 2 else nv for o, nv in zip(cur[1], new_elems)]
+                    if store[1] == "enum-elems":
+                        new_elems = [nv[1][1] if nv[0] == "tuple" and len(nv[1]) == 2 else nv for nv in new_elems]
                     self._place_store(store[0], L(*new_elems), env)
             return UNIT
         if k == "Assign":
@@ -1053,6 +1107,9 @@ class AEval(dtable.Eval):
         self._assigned_stack.append(None)
         if not hasattr(self, "_mutparams_stack"):
             self._mutparams_stack = []
+        for p_ in params:
+            if is_node(p_.get("pat")) and p_["pat"].get("k") == "PIdent" and _param_kind(p_.get("ty")) is not None:
+                env["#kind:" + p_["pat"]["name"]] = ("str", _param_kind(p_.get("ty")))
         self._mutparams_stack.append({p_["pat"]["name"] for p_ in params if is_node(p_.get("pat")) and p_["pat"].get("k") == "PIdent"
                                       and re.match(r"^&\s*(?:'\w+\s*)?mut\b", str(p_.get("ty", "")).strip())})
         try:
@@ -2613,6 +2670,16 @@ class AEval(dtable.Eval):
                             and ini["receiver"]["path"] in env and env[ini["receiver"]["path"]][0] == "list" and not isinstance(env[ini["receiver"]["path"]], MutRef) and "iter_mut" not in self.builtins:
                         v = MutRef(env, ini["receiver"]["path"], 0, None)
                     bd = self.pat(st["pat"], v, env)
+                    if bd is not None and st["pat"].get("k") in ("PIdent", "PType"):
+                        pk_ = st["pat"]
+                        while pk_.get("k") == "PType":
+                            pk_ = pk_["pat"]
+                        if pk_.get("k") == "PIdent":
+                            kd_ = _var_kind(ini)
+                            if kd_ is None:
+                                env.pop("#kind:" + pk_["name"], None)
+                            else:
+                                env["#kind:" + pk_["name"]] = ("str", kd_)
                     if bd is None:
                         if "else" in st:
                             self.ex(st["else"], env)
@@ -2643,7 +2710,7 @@ class AEval(dtable.Eval):
                                    "receiver": {"k": "MethodCall", "method": "get_mut", "line": st.get("line", 0), "receiver": {"k": "Path", "path": ref.name, "line": st.get("line", 0)},
                                                 "args": [{"k": "Lit", "text": str(ref.a - 1), "int": ref.a - 1, "line": st.get("line", 0)}]}}
                             by_ref = True
-                        if tgt is not None and by_ref and tgt["k"] != "Path":
+                        if tgt is not None and by_ref and (tgt["k"] != "Path" or (is_node(init) and init["k"] == "Ref" and init.get("mut") and tgt["path"] != pp["name"])):
                             aliases[pp["name"]] = (tgt, v)
                         else:
                             aliases.pop(pp["name"], None)
@@ -2775,6 +2842,9 @@ class AEval(dtable.Eval):
         self.last_env = env       # what the function did to its `&mut` parameters can be read here afterwards
         if not hasattr(self, "_mutparams_stack"):
             self._mutparams_stack = []
+        for p_ in params:
+            if is_node(p_.get("pat")) and p_["pat"].get("k") == "PIdent" and _param_kind(p_.get("ty")) is not None:
+                env["#kind:" + p_["pat"]["name"]] = ("str", _param_kind(p_.get("ty")))
         self._mutparams_stack.append({p_["pat"]["name"] for p_ in params if is_node(p_.get("pat")) and p_["pat"].get("k") == "PIdent"
                                       and re.match(r"^&\s*(?:'\w+\s*)?mut\b", str(p_.get("ty", "")).strip())})
         if not hasattr(self, "_impl_stack"):
